@@ -6,6 +6,8 @@
 AllocCtl g_alloc;
 __thread Rng *g_rand_stream = nullptr;
 __thread int g_arch_cap = -1;
+__thread const char *g_ctx = "";
+__thread bool g_in_run = false;
 #ifdef OPSIM_MEMTRACE
 #include "threadsim.h"
 void *sim_malloc(size_t n) { if (ts_current_task() >= 0) return ts_task_alloc(n); return malloc(n); }
@@ -105,4 +107,14 @@ extern "C" __attribute__((used, visibility("default"))) const char *__asan_defau
 }
 extern "C" __attribute__((used, visibility("default"))) const char *__ubsan_default_options() {
   return "exitcode=77:halt_on_error=1:print_stacktrace=1";
+}
+
+// abort() raised inside the library during a run (SILK's own assertion macro prints and aborts; it cannot be overridden like
+// celt_fatal): turned into the same kind of event as a CELT assertion so that the run ends, the worker survives and the class
+// names the simulator's context. Outside a run abort() is abort().
+extern "C" void __real_abort(void);
+extern "C" __attribute__((noreturn)) void __wrap_abort(void) {
+  if (g_in_run) throw Fatal{std::string("abort ") + g_ctx};
+  __real_abort();
+  for (;;) {}
 }
